@@ -158,14 +158,14 @@ impl Item {
         } else {
             match &mut *item {
                 Item::List { items } => {
-                    let replace_idx = depth - 1;
                     for i in 0..items.size() {
                         depth -= 1;
                         let next = Item::insert(items.get_mut(i).unwrap(), new_el, depth);
                         match next {
                             Ok(replace_here) => {
                                 if replace_here {
-                                    let _ = items.replace(replace_idx, new_el.clone());
+                                    // the point was reached at child i of this list
+                                    let _ = items.replace(i, new_el.clone());
                                 }
                                 return Ok(false);
                             }
